@@ -1,4 +1,4 @@
-import ArrProofs.Lemmas.C13Axis
+import ArrProofs.Lemmas.C13Repeat
 /-!
 # C13 — delete, insert, append and repeat change exactly the addressed positions
 
@@ -11,6 +11,8 @@ Specification vocabulary
 * `keptIdx n idxs` — the positions `0 … n-1` that are NOT requested, ascending (`(List.range n).filter (· ∉ idxs)`).
 * `laneOf`, `a.get? c`, `inRange` — as in C08 / C02.
 * `bc1 L n` — a vector stretched to length `n` (itself, or its single entry `n` times).
+* `expandIdx R` — the run-length expansion of the indices `0 … R.length-1` with counts `R`: index `i` emitted `R[i]`
+  consecutive times (`((List.range R.length).zip R).flatMap (fun p => List.replicate p.2 p.1)`; `expandIdx_spec`).
 * `sortByIdx` (model) — the stable sort of the (index, value) pairs the code performs; characterised by `sortByIdx_spec`.
 -/
 namespace ArrModel.C13
@@ -229,6 +231,76 @@ theorem delete_append_id (a v : Arr α) :
     show _ < (a.elems ++ v.elems).length
     rw [List.length_append]; omega
 
+/-! ## 5. repeat -/
+
+/-- **flat repeat with one count**: every element of the flattened array is emitted `c` consecutive times (any rank;
+the last axis must not be empty — then the call is refused) -/
+theorem repeatFlat_spec (a : Arr α) (c : Nat) (hwf : a.WF) :
+    (a.shape.getLast? ≠ some 0 → a.repeatFlat [c] = .ok (Arr.flat (a.elems.flatMap (List.replicate c)))) ∧
+    (a.shape.getLast? = some 0 → a.repeatFlat [c] = .err .BroadcastShapeMismatch) :=
+  ⟨repeatFlat_single a c hwf, repeatFlat_single_reject a c⟩
+
+/-- **flat repeat with one count per element** (1-D array of `n ≥ 1` elements, `n` counts, zeros allowed): element `i`
+is emitted `repeats[i]` consecutive times; the result has `Σ repeats` elements -/
+theorem repeatFlat_counts_spec (a : Arr α) (repeats : List Nat) (n : Nat) (hwf : a.WF) (hs : a.shape = [n]) (hn : 0 < n)
+    (hr : repeats.length = n) :
+    ∃ r, a.repeatFlat repeats = .ok r ∧
+      r.elems = (a.elems.zip repeats).flatMap (fun p => List.replicate p.2 p.1) ∧
+      r.shape = [repeats.sum] ∧ r.elems.length = repeats.sum ∧
+      ∀ j : Nat, r.elems[j]? = (expandIdx repeats)[j]?.bind (fun i => a.elems[i]?) := by
+  have hlen : a.elems.length = n := by rw [hwf, hs]; simp
+  have hl : ((a.elems.zip repeats).flatMap (fun p => List.replicate p.2 p.1)).length = repeats.sum :=
+    zip_flatMap_replicate_length _ _ (by omega)
+  refine ⟨_, repeatFlat_1d a repeats n hs hn hr, rfl, ?_, hl, ?_⟩
+  · show [List.length _] = _; rw [hl]
+  · intro j
+    show ((a.elems.zip repeats).flatMap (fun p => List.replicate p.2 p.1))[j]? = _
+    cases he : a.elems with
+    | nil => rw [he] at hlen; simp at hlen; omega
+    | cons d ds =>
+      rw [← he, zip_flatMap_replicate_eq d a.elems repeats (by omega), List.getElem?_map]
+      cases hj : (expandIdx repeats)[j]? with
+      | none => rfl
+      | some i =>
+        have hi : i < repeats.length := expandIdx_lt repeats i (List.mem_of_getElem? hj)
+        simp [List.getD_eq_getElem?_getD, List.getElem?_eq_getElem (show i < a.elems.length by omega)]
+
+/-- the run-length expansion is determined by: ascending, and index `i` occurs exactly `R[i]` times — i.e. every
+index is emitted `R[i]` consecutive times, in index order -/
+theorem expandIdx_characterisation (R : List Nat) :
+    (expandIdx R).Pairwise (· ≤ ·) ∧ (∀ i, (expandIdx R).count i = R.getD i 0) ∧ (expandIdx R).length = R.sum :=
+  ⟨(expandIdx_spec R).1, (expandIdx_spec R).2, expandIdx_length R⟩
+
+/-- **repeat along an axis, EVERY axis of EVERY rank**: for a well-formed array without a zero-length axis and a count
+vector `R` with one count per index of the axis (or a single count, which is used for every index; zeros allowed), the
+call succeeds, the axis gets length `Σ R`, every other axis is kept, and the element at coordinate `c` of the result
+is the element of `a` at `c` with the axis coordinate replaced by the source index of output position `c[axis]` in the
+run-length expansion (`expandIdx`): index `i` of the axis is emitted `R[i]` consecutive times. -/
+theorem repeatAxis_spec (a : Arr α) (zero : α) (repeats : List Nat) (axis : Nat)
+    (hwf : a.WF) (hax : axis < a.ndim) (hnz : 0 ∉ a.shape)
+    (hr : repeats.length = a.shape.getD axis 0 ∨ repeats.length = 1) :
+    ∃ r, a.repeatAxis zero repeats axis = .ok r ∧
+      r.shape = a.shape.set axis (bc1 repeats (a.shape.getD axis 0)).sum ∧ r.WF ∧
+      ∀ c, inRange r.shape c = true →
+        ∃ k, (expandIdx (bc1 repeats (a.shape.getD axis 0)))[c.getD axis 0]? = some k ∧
+          r.get? c = a.get? (c.set axis k) :=
+  repeatAxis_ok a zero repeats axis hwf hax hnz hr
+
+/-- the count vector actually used: the request itself when it has one count per index, the single count repeated
+otherwise -/
+theorem repeat_counts (repeats : List Nat) (n : Nat) :
+    (repeats.length = n → bc1 repeats n = repeats) ∧ (∀ c : Nat, bc1 [c] n = List.replicate n c) :=
+  ⟨fun h => by rw [← h]; exact bc1_same repeats, fun c => bc1_single c n⟩
+
+/-- **rejections of repeat along an axis**: an axis outside the rank gives `Err(AxisOutOfBounds)`; a count vector
+whose length is neither the axis length nor 1 (or is empty) gives `Err(BroadcastShapeMismatch)` -/
+theorem repeatAxis_rejects (a : Arr α) (zero : α) (repeats : List Nat) (axis : Nat) :
+    (a.ndim ≤ axis → a.repeatAxis zero repeats axis = .err .AxisOutOfBounds) ∧
+    (axis < a.ndim →
+      (repeats.length ≠ a.shape.getD axis 0 ∧ repeats.length ≠ 1 ∧ a.shape.getD axis 0 ≠ 1 ∨ repeats.length = 0) →
+      a.repeatAxis zero repeats axis = .err .BroadcastShapeMismatch) :=
+  ⟨repeatAxis_axis_err a zero repeats axis, repeatAxis_count_err a zero repeats axis⟩
+
 /-! ## 6. trim_zeros -/
 
 /-- **trimming removes leading and trailing zeros only**: a rank-1 array is answered with a flat array `r` such that
@@ -255,5 +327,40 @@ theorem trimZeros_unique [DecidableEq α] (a : Arr α) (zero : α) (h : a.ndim =
   have := trimList_of_decomp zero a.elems p r s hl hp hs hh ht
   unfold trimList at this
   rw [this]
+
+/-! ## non-vacuity (no `decide` through `List.mergeSort`: the theorems are instantiated, the hypotheses discharged) -/
+
+/-- a `[2,3,2]` sample array -/
+def sample : Arr Nat := ⟨List.range 12, [2, 3, 2]⟩
+
+example : sample.WF ∧ 0 ∉ sample.shape := by decide
+-- flat delete: request `[4, 1, 4]` (unordered, repeated) on 6 elements
+example := (deleteFlat_spec (Arr.flat [10, 11, 12, 13, 14, 15]) [4, 1, 4]).1 (by decide)
+example : ((([10, 11, 12, 13, 14, 15] : List Nat).zipIdx.filter (fun p => decide (p.2 ∉ [4, 1, 4]))).map (·.1)) = [10, 12, 13, 15] := by
+  decide
+example := (deleteFlat_spec (Arr.flat [10, 11, 12]) [0, 3]).2 ⟨3, by decide, by decide⟩
+-- delete along the middle axis of the rank-3 sample, positions {2, 0} requested as [2, 0, 2]
+example := delete_axis_spec sample 0 [2, 0, 2] 1 (by decide) (by decide) (by decide) (by decide)
+example : keptIdx 3 [2, 0, 2] = [1] := by decide
+example := (delete_axis_rejects sample 0 [3] 1).1 (by decide) (by decide) (by decide) ⟨3, by decide, by decide⟩
+-- flat insert: three values at indices [2, 0, 2] of a 3-element array (equal indices, unordered)
+example := insertFlat_spec (Arr.flat [7, 8, 9]) [2, 0, 2] (Arr.flat [100, 200, 300]) rfl (by decide) (by decide) rfl (by decide)
+example := delete_insert_id (Arr.flat [7, 8, 9]) [2, 0, 2] (Arr.flat [100, 200, 300]) rfl (by decide) (by decide) rfl (by decide)
+example : insertAllAt [7, 8, 9] [(0, 200), (2, 100), (2, 300)] = [200, 7, 8, 100, 300, 9] := by decide
+example : landing [(0, 200), (2, 100), (2, 300)] = [0, 3, 4] := by decide
+example := insertFlat_one_index (Arr.flat [7, 8, 9]) 1 (Arr.flat [100, 200]) rfl (by decide) (by decide) (by decide)
+-- append / trim
+example := appendFlat_spec (Arr.flat [1, 2]) (Arr.flat [3])
+example := (trimZeros_spec (Arr.flat [0, 0, 1, 0, 2, 0]) 0).1 rfl
+example : (Arr.flat [0, 0, 1, 0, 2, 0]).trimZeros 0 = .ok (Arr.flat [1, 0, 2]) := by decide
+example := trimZeros_unique (Arr.flat [0, 0, 1, 0, 2, 0]) 0 rfl [0, 0] [1, 0, 2] [0] rfl (by decide) (by decide) (by decide) (by decide)
+example := (trimZeros_spec sample 0).2 (by decide)
+-- repeat: counts [2, 0, 1] along the middle axis (a zero count), and one count for all along the last axis
+example := repeatAxis_spec sample 0 [2, 0, 1] 1 (by decide) (by decide) (by decide) (.inl (by decide))
+example := repeatAxis_spec sample 0 [3] 2 (by decide) (by decide) (by decide) (.inr rfl)
+example : expandIdx [2, 0, 1] = [0, 0, 2] := by decide
+example : sample.repeatAxis 0 [2, 0, 1] 1 = .ok ⟨[0, 1, 0, 1, 4, 5, 6, 7, 6, 7, 10, 11], [2, 3, 2]⟩ := by decide +kernel
+example := (repeatFlat_spec sample 2 (by decide)).1 (by decide)
+example := repeatFlat_counts_spec (Arr.flat [5, 6, 7]) [2, 0, 1] 3 (by decide) rfl (by decide) rfl
 
 end ArrModel.C13
